@@ -76,6 +76,22 @@ func VC17_GUIDCompare() {
 	same := vsym.And(a.Data1 == b.Data1, a.Data2 == b.Data2, a.Data3 == b.Data3, a.Data4 == b.Data4)
 	vsym.Assert(CmpEFIGUID(a, b) == same, "CmpEFIGUID is field-wise equality")
 	vsym.Assert(vsym.Implies(CmpEFIGUID(a, b), a == b), "equal GUIDs compare equal with ==")
+	// conversions of one GUID are values of their own: converting another GUID later does not change them
+	ba, sa := GUIDToBytes(&a), a.Format()
+	ba2 := a.Bytes()
+	bb, sb := GUIDToBytes(&b), b.Format()
+	bb2 := b.Bytes()
+	wantA := []byte{byte(a.Data1 >> 24), byte(a.Data1 >> 16), byte(a.Data1 >> 8), byte(a.Data1), byte(a.Data2 >> 8), byte(a.Data2), byte(a.Data3 >> 8), byte(a.Data3)}
+	wantA = append(wantA, a.Data4[:]...)
+	wantB := []byte{byte(b.Data1 >> 24), byte(b.Data1 >> 16), byte(b.Data1 >> 8), byte(b.Data1), byte(b.Data2 >> 8), byte(b.Data2), byte(b.Data3 >> 8), byte(b.Data3)}
+	wantB = append(wantB, b.Data4[:]...)
+	vsym.AssertBytesEq(ba, wantA, "bytes of the first GUID are unaffected by converting the second")
+	vsym.AssertBytesEq(ba2, wantA, "Bytes() of the first GUID is unaffected by converting the second")
+	vsym.AssertBytesEq(bb, wantB, "bytes of the second GUID")
+	vsym.AssertBytesEq(bb2, wantB, "Bytes() of the second GUID")
+	vsym.AssertBytesEq([]byte(sa), vGUIDText(a, false), "text of the first GUID is unaffected by formatting the second")
+	vsym.AssertBytesEq([]byte(sb), vGUIDText(b, false), "text of the second GUID")
+	vsym.Assert(*BytesToGUID(ba) == a && *BytesToGUID(bb) == b, "both byte forms parse back to their GUIDs")
 	vsym.Reach("end")
 }
 
